@@ -84,7 +84,7 @@ func histCheckInto(rep *core.Report, hc histCheck) {
 		}
 		st := core.BFSStats{}
 		if len(init.w.viol) == 0 {
-			st = core.BFS(pool, sub, core.BFSOpts{Op: "hist", Params: sc, MaxDepth: depth, MaxStates: maxStates, Deadline: deadline, InitKey: key, Batch: 4})
+			st = core.BFS(pool, sub, core.BFSOpts{Op: "hist", Params: sc, MaxDepth: depth + sc.ExtraDepth, MaxStates: maxStates, Deadline: deadline, InitKey: key, Batch: 4})
 		}
 		totalS += st.States
 		totalT += st.Transitions
@@ -110,8 +110,8 @@ func histCheckInto(rep *core.Report, hc histCheck) {
 			rep.Exhaustive = false
 			rep.Coverage["cap_hit"] = sub.Coverage["cap_hit"]
 		}
-		if minDepth < 0 || st.Depth < minDepth {
-			minDepth = st.Depth
+		if minDepth < 0 || st.Depth-sc.ExtraDepth < minDepth {
+			minDepth = st.Depth - sc.ExtraDepth
 		}
 		rep.Coverage[fmt.Sprintf("scenario_%d_levels", si)] = st.LevelSizes
 	}
